@@ -168,6 +168,8 @@ impl Direct {
             return Obs { line, new_ops: vec![], kinds: vec![] };
         }
         let cmd = self.cmd.as_mut().unwrap();
+        // asked before anything is collected: done means no task left AND nothing waiting to be collected
+        let done0 = cmd.is_done();
         let effs: Vec<Effect> = cmd.effects().collect();
         let evs: Vec<Event> = cmd.events().collect();
         let done = cmd.is_done();
@@ -186,6 +188,7 @@ impl Direct {
         m.insert("effs".into(), Value::Array(ej));
         m.insert("evs".into(), Value::Array(evs.iter().map(ev_json).collect()));
         m.insert("done".into(), json!(done));
+        m.insert("done0".into(), json!(done0));
         m.insert("live".into(), json!(live));
         m.insert("ops".into(), json!(ops));
         m.insert("alive".into(), json!(crate::dsl::alive()));
